@@ -60,14 +60,20 @@ type Env struct {
 func URL(w *world.World) string { return "http://" + w.LN.Name }
 
 // New creates the environment with len(fees) mints named mintA, mintB, ...
-func New(t world.T, caseSeed uint64, fees []uint, feeModes []lnmodel.FeeMode) *Env {
+// adapters (optional, per mint): "" = the Lightning model is the mint's backend, "cln" / "lnd" = one of the repository's
+// own backend adapters sits in between (world.Config.ViaCLN / ViaLND).
+func New(t world.T, caseSeed uint64, fees []uint, feeModes []lnmodel.FeeMode, adapters ...string) *Env {
 	e := &Env{T: t, Net: lnmodel.NewNetwork([]byte(fmt.Sprint("wenv", caseSeed)))}
 	for i, f := range fees {
 		fm := lnmodel.FeeZero
 		if i < len(feeModes) {
 			fm = feeModes[i]
 		}
-		w := world.NewOn(t, world.Config{FeePpk: f, FeeMode: fm, WithServer: true, SeedIdx: i, CaseSeed: caseSeed + uint64(i), Name: "mint" + string(rune('A'+i))}, e.Net)
+		cfg := world.Config{FeePpk: f, FeeMode: fm, WithServer: true, SeedIdx: i, CaseSeed: caseSeed + uint64(i), Name: "mint" + string(rune('A'+i))}
+		if i < len(adapters) {
+			cfg.ViaCLN, cfg.ViaLND = adapters[i] == "cln", adapters[i] == "lnd"
+		}
+		w := world.NewOn(t, cfg, e.Net)
 		e.Mints = append(e.Mints, w)
 	}
 	e.prev = http.DefaultTransport
@@ -115,6 +121,13 @@ func (e *Env) RoundTrip(req *http.Request) (*http.Response, error) {
 		}
 	}
 	if m == nil {
+		// not a mint of this environment (e.g. the node imitation behind a mint's CLN adapter): the real transport
+		if strings.HasPrefix(req.URL.Host, "127.0.0.1:") && e.prev != nil {
+			if body != nil {
+				req.Body = io.NopCloser(bytes.NewReader(body))
+			}
+			return e.prev.RoundTrip(req)
+		}
 		return nil, fmt.Errorf("wenv: no such host %q", req.URL.Host)
 	}
 	e.seq++
